@@ -257,7 +257,13 @@ impl<T> ReceiverInternal<T> {
         }
 
         self.chan.recv_semaphore.acquire_blocking(1).ok()?;
-        self.chan.recv()
+        let message = self.chan.recv()?;
+
+        if self.chan.is_bounded() {
+            self.chan.send_semaphore.release(1);
+        }
+
+        Some(message)
     }
 
     /// Closes the receiving half of a channel, without dropping it.
